@@ -388,6 +388,9 @@ class Obligation:
 
 
 # ------------------------------------------------------------------ executor
+ALL_EXECUTORS = []
+
+
 class Executor:
     def __init__(self, fns, consts, leaf_ops=(), generics_hint=None, unroll_limit=600, assoc_types=None,
                  panic_policy='obligation', prune=False, solver_timeout_ms=20000):
@@ -420,6 +423,8 @@ class Executor:
                 self.by_method.setdefault(meth, []).append(f)
         self.trace = None
         self.fn_stack = []
+        self.harvested = 0         # obligations[:harvested] have been turned into solver queries by the check
+        ALL_EXECUTORS.append(self)
         self.cuts = {}             # (fn name, block) -> handler(ex, st, fr, nvisit); may edit the state or raise CutReached
         self.adt_hooks = []
 
@@ -1397,7 +1402,7 @@ def _ty_in(t, hay):
 def _sig_generics(f):
     seen = []
     for _, pt in f.params + [('', f.ret)]:
-        for g in re.findall(r'(?<![\w:])([A-Z][A-Za-z]*)(?![\w:<])', pt):
+        for g in re.findall(r'(?<![\w:])(?<! as )([A-Z][A-Za-z]*)(?![\w:<])', pt):
             if g not in seen and g not in ('Self', 'Vec', 'Option', 'Result', 'String', 'Box'):
                 seen.append(g)
     return seen
